@@ -1,5 +1,5 @@
 """Data for MANIFEST.json (bin/mkmanifest)."""
-HOOK_COMMITS = []
+HOOK_COMMITS = ["9ae5561"]
 NOTES = ("Machine-checked proof in Coq 8.16 over executable Gallina models of the back-end logic; each model is tied to /repo on every run "
          "by a correspondence run (extracted OCaml model vs the Go code on generated inputs) and/or by facts regenerated from the source "
          "(translator -> coq/gen). Oracles (math/big, encoding/*, x/net/html, node, strace) only search for failing inputs. "
@@ -20,7 +20,33 @@ ENGINES = [
     {"name": "Num", "path": "coq/theories/Num", "serves_properties": ["C08", "C07", "C04", "C05"],
      "kind_free_text": "F2 Gallina model of minify.Number/Decimal (precision 0) + lexeme grammar and value spec; extracted to OCaml; harness/cmd/numcheck"},
 ]
+ENGINES.append({"name": "Cli", "path": "coq/theories/Cli", "serves_properties": ["C19", "C20"],
+     "kind_free_text": "Gallina model of minify(Task)'s file-system effects per task shape (rename/truncate/write/unlink lists) over path -> option bytes, and F1 model of concatFileReader; harness/cmd/clifs (strace skeletons, real kills, fs images) + verif-tagged hook test for the reader"})
 CHECKS = {
+    "C20": {
+        "engine": "Cli", "design_ref": "DESIGN.md section 4 / C20",
+        "technique": "Coq proof (invariant over every prefix of the system-call list, any write split) + strace skeleton correspondence + real SIGKILL injection as search",
+        "text": ("Theorems (Props/C20.v), for every file content, output, split of the output into write calls and EVERY kill point k (prefix of the operation "
+                 "list): for a file minified onto itself, a failed write with restore, and a bundle written onto one of its sources, the original bytes are at "
+                 "p, or at p.bak, or p holds the complete new output; files that are only read (and every other path) are never modified. Tie: the model's "
+                 "operation list per task shape is compared with strace skeletons of the real command (18 families of invocations x 4 sizes, per "
+                 "destination, plus 'nothing else is mutated'). Search: SIGKILL injected at every traced system-call boundary, disk inspected afterwards."),
+        "note": ("Trusted: Coq kernel, extraction, driver, strace, the abstraction of the file system as path -> option bytes (atomic rename/unlink, append-only "
+                 "writes); durability under power loss is outside the property. Attribute calls and directory creation are not modelled."),
+    },
+    "C19": {
+        "engine": "Cli", "design_ref": "DESIGN.md section 4 / C19",
+        "technique": "Coq proof of the complete-task effect and of the bundle reader for all read sizes + strace and hook correspondence; task planning by search against a reference",
+        "text": ("Theorems (Props/C19.v): after a complete task — for every file system, payload and split into writes — the destination holds exactly the "
+                 "payload (library output, or the original bytes on library failure), an in-place run leaves no backup, a failed write restores the original, "
+                 "every other path is unchanged; the F1 model of concatFileReader delivers exactly the inputs in order separated by the separator for every "
+                 "sequence of read-buffer sizes and short reads, and reaches EOF. Ties: strace skeletons vs ops_of; the extracted reader vs the real "
+                 "concatFileReader Read call by Read call (verif-tagged hook). Partial: which files are selected and where they go (flag parsing, createTasks, "
+                 "NewTask, filters, attribute preservation) is not modelled; it is decided by search only — generated trees x invocation shapes compared with "
+                 "a Go reference of the documented rules, every untouched path hashed."),
+        "note": ("Partial (planning is search-only). Trusted: Coq kernel, extraction, driver, strace, the verif hook test, the reference implementation of the "
+                 "documented rules in harness/cmd/clifs/ref.go."),
+    },
     "C10": {
         "engine": "Buf", "design_ref": "DESIGN.md section 4 / C10",
         "technique": "Coq proof of index safety for the F1 look-ahead buffer model and the Bytes contract + mutation sweep as search",
